@@ -42,6 +42,14 @@ func loaderRoots(c *Ctx) []string {
 			}
 		}
 	}
+	if len(out) == 0 {
+		// the table written out as one call per directory
+		if ld := c.P.Func(pkgConfig, "", "loadDirectory"); ld != nil {
+			for _, dc := range directLoaderCalls(fn, ld) {
+				out = append(out, dc.root)
+			}
+		}
+	}
 	sort.Strings(out)
 	return out
 }
